@@ -52,7 +52,7 @@ RULE = (
     "8 bit flips, garbage, Length 0/short/long; small LZW/RunLength/ASCII85/ASCIIHex/CCITT payloads: every bit of the first 8 "
     "bytes + one bit of every later byte; token: delete, duplicate, replace by 0 /Name (string) [] <<>>; file: truncation, "
     "startxref/xref-row damage) x entry points {extract_text, extract_pages (run with caching=False: every object fetch re-parses), "
-    "extract_text_to_fp(xml)[, nav]}. quick = stride-12 sample of the same enumeration (offset chosen by the seed), except that "
+    "extract_text_to_fp(xml, strip_control=True)[, nav]}. quick = stride-12 sample of the same enumeration (offset chosen by the seed), except that "
     "the header-bit flips are all run and links redirected to an ancestor are sampled with stride 3. "
     "distinct = distinct damaged files; non-trivial = every case (each differs from its seed by exactly one fault)."
 )
@@ -494,7 +494,7 @@ def run_entry(entry: str, data: bytes, opts: Dict[str, Any]) -> None:
         if opts.get("output_dir"):
             od = tempfile.mkdtemp(prefix="vf13-")
         try:
-            extract_text_to_fp(io.BytesIO(data), out, output_type="xml", codec="utf-8", output_dir=od, password=pw)
+            extract_text_to_fp(io.BytesIO(data), out, output_type="xml", codec="utf-8", output_dir=od, password=pw, strip_control=True)
         finally:
             if od:
                 shutil.rmtree(od, ignore_errors=True)
@@ -612,8 +612,9 @@ def enumerate_cases(seed_name: str, doc: Doc, opts: Dict[str, Any]) -> List[Tupl
     data = build(doc, opts)
     full = seed_name in ("basic", "xrefstm")
     step = 1 if full else 7
-    for off in range(0, len(data), step):
-        cases.append(("trunc", off, "truncate"))
+    for off in range(0, len(data)):
+        if off % step == 0 or _cut_inside_token(data, off):
+            cases.append(("trunc", off, "truncate"))
     for kind in ("sx_zero", "sx_big", "sx_mid", "sx_missing", "sx_garbled", "xref_row_garbled", "xref_kw", "eof_missing", "header_missing"):
         cases.append(("file", 0, kind))
     return cases
@@ -775,11 +776,26 @@ def run_scale(family: str, rec) -> None:
                      family, growth, steps[small], steps[large], sgrowth, size[small], size[large]))
 
 
-def case_stride(doc: Doc, case: Tuple[str, Any, str], stride: int) -> int:
+_CUT_RE = re.compile(rb"(#[0-9A-Fa-f]?|\\[0-7]{0,2}|<[0-9A-Fa-f]?|startxref\s*|stream\r?|\d+ \d+ |~)$")
+
+
+def _cut_inside_token(data: bytes, off: int) -> bool:
+    """Truncation points that leave a half-read token: inside a #xx name escape, a backslash escape, a hex string or
+    dictionary opener, right after startxref / stream, inside an indirect reference, inside the ASCII85 end marker."""
+    return _CUT_RE.search(data[max(0, off - 12):off]) is not None
+
+
+def case_stride(doc: Doc, case: Tuple[str, Any, str], stride: int, base: bytes = b"") -> int:
     """Sampling stride of one case in the quick tier: rare, single-case mechanisms are sampled more densely."""
     fam, site, kind = case
+    if fam == "trunc" and _cut_inside_token(base, site):
+        return 1                    # cuts that leave a half-read token: all of them, every run
     if fam == "bits" and site[1] < 8:
         return 1                    # header bits of LZW / RunLength / ASCII / CCITT payloads: all of them, every run
+    if fam == "obj" and kind in ("string", "name"):
+        parent, key = _container(doc, site)
+        if isinstance(parent[key], (Name, bytes)):
+            return 1                # text-like value swapped for the other text-like type (str vs bytes inside the library)
     if fam == "obj" and kind.startswith("ref_anc"):
         parent, key = _container(doc, site)
         if isinstance(parent[key], Ref):
@@ -800,7 +816,7 @@ def run_shard(spec: Dict[str, Any], rec) -> None:
         rec.see("seeds", name)
         for ci, case in enumerate(cases):
             gi += 1
-            st = case_stride(doc, case, spec["stride"])
+            st = case_stride(doc, case, spec["stride"], base)
             if gi % st != spec["phase"] % st:
                 continue
             if (gi // st) % spec["nshard"] != spec["sub"]:
